@@ -39,6 +39,8 @@ pub enum Ev {
     Poll { ch: u8 },
     Adv { ns: u128 },
     Reset,
+    /// Reset storm: reset() called n times in a row (compact form; n up to 70000).
+    Resets { n: u32 },
     /// Copy-semantics check: a copy runs in lockstep for k events; another copy is fed `burst`
     /// at once while the original must stay unchanged.
     Fork { k: u8, burst: Vec<[u8; 3]> },
@@ -90,6 +92,7 @@ impl Ev {
             Ev::Poll { ch } => J::arr([J::s("poll"), ji(*ch)]),
             Ev::Adv { ns } => J::arr([J::s("adv"), J::Str(ns.to_string())]),
             Ev::Reset => J::arr([J::s("reset")]),
+            Ev::Resets { n } => J::arr([J::s("resets"), ji(*n)]),
             Ev::Snapshot => J::arr([J::s("snapshot")]),
             Ev::Restore => J::arr([J::s("restore")]),
             Ev::Fork { k, burst } => J::arr([
@@ -146,6 +149,7 @@ impl Ev {
                 Ev::Adv { ns: (v as u128).min(DUR_MAX_NS) }
             }
             "reset" => Ev::Reset,
+            "resets" => Ev::Resets { n: n(1, 70000)? as u32 },
             "snapshot" => Ev::Snapshot,
             "restore" => Ev::Restore,
             "fork" => {
@@ -235,6 +239,10 @@ impl Trace {
                     h.u128(*ns);
                 }
                 Ev::Reset => h.b(7),
+                Ev::Resets { n } => {
+                    h.b(11);
+                    h.u64(*n as u64);
+                }
                 Ev::Snapshot => h.b(9),
                 Ev::Restore => h.b(10),
                 Ev::Fork { k, burst } => {
